@@ -26,7 +26,7 @@ type TierSel struct {
 	Costs    []string `json:"costs"`    // cost map pool entries used with Reordering masks
 	MaxPaths int      `json:"maxPaths"` // per unrolling
 	Thorough bool     `json:"-"`
-	Extra    []string `json:"extra"`    // additional source texts
+	Extra    []string `json:"extra"` // additional source texts
 }
 
 // Selection is the "bounded" engine section of claims/<ID>.json.
@@ -55,7 +55,7 @@ func (s *Selection) has(rel string) bool {
 
 type stats struct {
 	Sources, Jobs, Programs, Obls, Queries, DistinctQueries int
-	DriverS, SymexS, SolveS, ReplayS                       float64
+	DriverS, SymexS, SolveS, ReplayS                        float64
 }
 
 // Run is the engine: func(env, program, property, selection) -> result.
@@ -88,40 +88,84 @@ func Run(env *core.Env, p *load.Program, prop string, sel json.RawMessage) (*cor
 		srcs = append(srcs, t)
 	}
 	st.Sources = len(srcs)
-	plan := newPlan(&s, ts, srcs)
-	st.Jobs = len(plan.jobs)
-	t0 := time.Now()
-	progs, drvCmd, err := RunDriver(env, plan.jobs)
-	if err != nil {
-		return nil, fmt.Errorf("bounded: %v", err)
-	}
-	st.DriverS = time.Since(t0).Seconds()
-	for _, pr := range progs {
-		if pr.OK() {
-			st.Programs++
+	// the family is processed in chunks of sources (driver -> symbolic execution -> solving ->
+	// replay per chunk) so that memory stays bounded; the special families of a relation
+	// (boundary programs, special literals, failing constants) go with the first chunk
+	jobsPerSrc := 1
+	if len(srcs) > 0 {
+		jobsPerSrc = len(newPlan(&s, ts, srcs[:1], false).jobs)
+		if jobsPerSrc < 1 {
+			jobsPerSrc = 1
 		}
 	}
-	// symbolic execution + obligation generation, in parallel
-	t0 = time.Now()
-	obls := plan.generate(cx, progs)
-	st.SymexS = time.Since(t0).Seconds()
+	chunk := 150000 / jobsPerSrc
+	if chunk < 100 {
+		chunk = 100
+	}
+	var obls []*core.Obl
+	var samples []interface{}
+	var plan *plan
+	drvCmd := ""
+	seen := map[string]bool{}
+	for lo, first := 0, true; first || lo < len(srcs); lo += chunk {
+		hi := lo + chunk
+		if hi > len(srcs) {
+			hi = len(srcs)
+		}
+		plan = newPlan(&s, ts, srcs[lo:hi], first)
+		first = false
+		if len(plan.jobs) == 0 {
+			continue
+		}
+		st.Jobs += len(plan.jobs)
+		t0 := time.Now()
+		progs, cmdline, err := RunDriver(env, plan.jobs)
+		if err != nil {
+			return nil, fmt.Errorf("bounded: %v", err)
+		}
+		if drvCmd == "" {
+			drvCmd = cmdline
+		}
+		st.DriverS += time.Since(t0).Seconds()
+		for _, pr := range progs {
+			if pr.OK() {
+				st.Programs++
+			}
+		}
+		// symbolic execution + obligation generation, in parallel
+		t0 = time.Now()
+		part := plan.generate(cx, progs)
+		st.SymexS += time.Since(t0).Seconds()
+		// solve
+		t0 = time.Now()
+		q, d := cx.SolveAll(part)
+		st.Queries += q
+		st.DistinctQueries += d
+		st.SolveS += time.Since(t0).Seconds()
+		// replay what was refuted (batched)
+		t0 = time.Now()
+		if !s.NoReplay {
+			cx.ReplayAll(part)
+		}
+		st.ReplayS += time.Since(t0).Seconds()
+		if len(samples) == 0 {
+			samples = plan.samples(part, progs)
+		}
+		for _, o := range part {
+			if seen[o.Name] {
+				continue
+			}
+			seen[o.Name] = true
+			if o.Status == core.Discharged {
+				o.Query = "" // only failed obligations keep their query (replay files)
+			}
+			obls = append(obls, o)
+		}
+		cx.dropChunk()
+	}
 	st.Obls = len(obls)
-	// solve
-	t0 = time.Now()
-	st.Queries, st.DistinctQueries = cx.SolveAll(obls)
-	st.SolveS = time.Since(t0).Seconds()
-	// replay what was refuted (batched)
-	t0 = time.Now()
-	if !s.NoReplay {
-		cx.ReplayAll(obls)
-	}
-	st.ReplayS = time.Since(t0).Seconds()
 	res.Obls = obls
-	dom := &Domain{}
-	res.Assumptions = append(res.Assumptions, plan.assumptions...)
-	if len(plan.assumptions) == 0 {
-		res.Assumptions = dom.Describe()
-	}
+	res.Assumptions = assumptionsFor(s.Relations)
 	res.Trusted = []string{
 		"bounded tier: the go/ssa interpreter of govc/internal/bounded (concrete control, symbolic data), the direct operator terms of opterms.go, the reference generators of ref.go, the in-package driver harness/driver_test.go.txt",
 	}
@@ -133,13 +177,13 @@ func Run(env *core.Env, p *load.Program, prop string, sel json.RawMessage) (*cor
 		"alphabet": Alpha.Describe(), "enumeration": einfo, "relations": s.Relations, "tier": env.Tier, "seed": env.Seed,
 		"masks": plan.masks, "cost_pool": plan.costs,
 		"sources": st.Sources, "driver_jobs": st.Jobs, "programs_compiled": st.Programs,
-		"unrollings": cx.nUnroll, "unrollings_shared": cx.nCached, "paths": cx.nPaths, "max_paths_per_unrolling": cx.MaxPaths, "over_budget_not_covered": cx.nOver,
+		"unrollings": cx.nUnroll, "unrollings_shared": cx.nCached, "paths": cx.nPaths, "max_paths_per_unrolling": cx.MaxPaths, "over_budget_not_covered": cx.nOver, "cost_map_configs_identical_to_empty_map": cx.nSameAsBase,
 		"obligations": st.Obls, "by_status": nstat, "smt_queries": st.Queries, "smt_queries_distinct": st.DistinctQueries,
 		"driver_s": st.DriverS, "symex_s": st.SymexS, "solve_s": st.SolveS, "replay_s": st.ReplayS,
 		"driver_cmd": drvCmd,
 		"note":       "bounded: real Eval/TryEval SSA unrolled on every enumerated compiled program, inputs fully symbolic; never counted as proved",
 	}
-	res.Samples = plan.samples(obls, progs)
+	res.Samples = samples
 	return res, nil
 }
 
@@ -229,7 +273,7 @@ func (s *Selection) hasAny(rels []string) []string {
 	return out
 }
 
-func newPlan(s *Selection, ts TierSel, srcs []*Src) *plan {
+func newPlan(s *Selection, ts TierSel, srcs []*Src, families bool) *plan {
 	pl := &plan{sel: s, ts: ts, jobIdx: map[string]int{}, caseIdx: map[string]*planned{}}
 	masks := ts.Masks
 	if len(masks) == 0 {
@@ -298,7 +342,7 @@ func newPlan(s *Selection, ts TierSel, srcs []*Src) *plan {
 			}
 		}
 	}
-	if s.has("boundary") {
+	if s.has("boundary") && families {
 		for _, b := range Boundaries(ts.Thorough) {
 			text := b.Src.String()
 			for _, m := range masks {
@@ -318,8 +362,8 @@ func newPlan(s *Selection, ts TierSel, srcs []*Src) *plan {
 	}
 	if s.has("redump") {
 		all := append([]*Src{}, srcs...)
-		for _, x := range SpecialLiteralFamily() {
-			all = append(all, x)
+		if families {
+			all = append(all, SpecialLiteralFamily()...)
 		}
 		for _, src := range all {
 			for _, m := range masks {
@@ -329,7 +373,7 @@ func newPlan(s *Selection, ts TierSel, srcs []*Src) *plan {
 			}
 		}
 	}
-	if s.has("eval=LR.bound") {
+	if s.has("eval=LR.bound") && families {
 		for _, x := range C10Family {
 			src, err := ParseSrc(x, true)
 			if err != nil {
@@ -436,14 +480,20 @@ func (pl *plan) generate(cx *Checker, progs map[int]*XProg) []*core.Obl {
 				return
 			}
 			var obls []*core.Obl
+			// a cost map that yields the very program of the empty map adds nothing
+			sameAsBase := pc.base >= 0 && c.Prog.OK() && progs[pc.base].OK() && progs[pc.base].FP == c.Prog.FP
+			if sameAsBase {
+				cx.mu.Lock()
+				cx.nSameAsBase++
+				cx.mu.Unlock()
+				return
+			}
 			wf := cx.WFObl(c)
 			obls = append(obls, wf)
 			if !c.Prog.OK() {
 				out[i] = obls
 				return
 			}
-			// a cost map that yields the very program of the empty map adds nothing symbolic
-			sameAsBase := pc.base >= 0 && progs[pc.base].OK() && progs[pc.base].FP == c.Prog.FP
 			var c02 []string
 			for _, rel := range pc.rels {
 				switch rel {
@@ -570,6 +620,20 @@ func (cx *Checker) SolveAll(obls []*core.Obl) (queries, distinct int) {
 			if a.Res != "sat" && a.Res != "unsat" {
 				a = core.Solve(cx.env, q, nil, 0)
 			}
+			if a.Res == "sat" && usesOpaqueArith(o.Query) {
+				// the counterexample may rest on an arbitrary interpretation of the opaque
+				// arithmetic functions: ask again with their definitions revealed
+				q2 := core.Query{Text: revealArith(o.Query), Values: q.Values}
+				b := core.Solve(cx.env, q2, nil, 0)
+				switch b.Res {
+				case "unsat":
+					b.Solver += "+arith-defs"
+					a = b
+				case "sat":
+					b.Solver += "+arith-defs"
+					a = b
+				}
+			}
 			for _, x := range os {
 				core.ApplyAnswer(x, a)
 				x.SMTBytes = len(x.Query)
@@ -588,4 +652,50 @@ func os2() *os.File { return os.Stderr }
 // sortObls orders obligations by name (determinism of reports).
 func sortObls(obls []*core.Obl) {
 	sort.SliceStable(obls, func(i, j int) bool { return obls[i].Name < obls[j].Name })
+}
+
+const opaqueArithDecls = "(declare-fun gomul (Int Int) Int)\n(declare-fun godiv (Int Int) Int)\n(declare-fun gomod (Int Int) Int)\n"
+
+const definedArith = `(define-fun gomul ((a Int) (b Int)) Int (* a b))
+(define-fun godiv ((a Int) (b Int)) Int (ite (= b 0) 0 (ite (>= a 0) (ite (> b 0) (div a b) (- (div a (- b)))) (ite (> b 0) (- (div (- a) b)) (div (- a) (- b))))))
+(define-fun gomod ((a Int) (b Int)) Int (- a (* b (godiv a b))))
+`
+
+func usesOpaqueArith(q string) bool {
+	body := strings.Replace(q, opaqueArithDecls, "", 1)
+	return strings.Contains(body, "(gomul ") || strings.Contains(body, "(godiv ") || strings.Contains(body, "(gomod ")
+}
+
+func revealArith(q string) string { return strings.Replace(q, opaqueArithDecls, definedArith, 1) }
+
+// relDomain: the domain each relation is stated under.
+var relDomain = map[string]Domain{
+	"eval=LR": {}, "U-if-value": {AllBound: true}, "U-if-AllOK": {AllBound: true}, "LR-if-value": {AllBound: true},
+	"trace": {AllBound: true}, "try-sound": {}, "try=eval": {AllAvail: true}, "try-mono": {}, "try-K": {NoNil: true},
+	"eval-twice": {}, "err-reached": {AllBound: true}, "eval=LR.bound": {AllBound: true},
+	"ev=noev": {}, "ev=noev.try": {}, "ev-events": {}, "redump": {AllBound: true}, "boundary": {AllBound: true},
+}
+
+func assumptionsFor(rels []string) []string {
+	base := (&Domain{}).Describe()
+	out := append([]string{}, base...)
+	extra := map[string][]string{}
+	var order []string
+	for _, r := range rels {
+		d, ok := relDomain[r]
+		if !ok {
+			continue
+		}
+		for _, line := range d.Describe()[len(base):] {
+			if _, seen := extra[line]; !seen {
+				order = append(order, line)
+			}
+			extra[line] = append(extra[line], r)
+		}
+	}
+	for _, line := range order {
+		out = append(out, line+" [relations: "+strings.Join(extra[line], ", ")+"]")
+	}
+	out = append(out, "bounded tier: only the enumerated programs (bound in coverage.bounded) are covered; the Go interpreter of the SSA, the operator terms and the reference generators are trusted")
+	return out
 }
